@@ -1084,9 +1084,165 @@ def run(ctx):
     return res
 
 
+# ---------------------------------------------------------------------- correspondence with the Lean model
+
+def parse_view(line):
+    """reply of the driver's `view` request -> (index, time, step, {table: (rows, cols, matrix)})"""
+    import numpy as np
+    w = line.split(' ')
+    if w[0] != 'ok':
+        raise RuntimeError('driver view: %s' % line[:200])
+    index, time_, step, nt = int(w[1]), float(w[2]), (None if w[3] == 'None' else int(w[3])), int(w[4])
+    k = 5
+    tabs = {}
+    unhex = lambda h: '' if h == '-' else bytes.fromhex(h).decode('latin-1')
+    for _ in range(nt):
+        assert w[k] == 'T', w[k:k + 3]
+        name, nr, nc = w[k + 1], int(w[k + 2]), int(w[k + 3])
+        k += 4
+        rows = []
+        for r in range(nr):
+            parts = [unhex(x) for x in w[k + r].split(',')]
+            rows.append(parts[0] if len(parts) == 1 else tuple(parts))
+        k += nr
+        cols = [unhex(x) for x in w[k:k + nc]]
+        k += nc
+        m = np.array([float(x) for x in w[k:k + nr * nc]], dtype=float).reshape(nr, nc) if nr * nc else np.zeros((nr, nc))
+        k += nr * nc
+        tabs[name] = (rows, cols, m)
+    return index, time_, step, tabs
+
+
+def load_dump(path):
+    import numpy as np
+    z = np.load(path, allow_pickle=False)
+    meta = json.loads(str(z['meta']))
+    tabs = {}
+    for t in meta['tables']:
+        rows = [tuple(r) if isinstance(r, list) else r for r in t['rows']]
+        tabs[t['name']] = (rows, t['cols'], z['t_' + t['name']])
+    return meta['index'], struct.unpack('>d', bytes.fromhex(meta['time']))[0], meta['step'], tabs
+
+
+def bit_equal(a, b):
+    import numpy as np
+    if a.shape != b.shape:
+        return False
+    ai, bi = a.view(np.uint64), b.view(np.uint64)
+    return bool(np.all((ai == bi) | (np.isnan(a) & np.isnan(b))))
+
+
+def model_views(requests):
+    """requests: list of (path, skip list, [indices]); one driver process; returns per request either
+    ('exc', class) or ('ok', {index: view or ('exc', class)})"""
+    lines = []
+    for path, skip, indices in requests:
+        od = '1' if str(path).endswith('OUTPUT_DATA') else '0'
+        lines.append('open %s %s %s' % (hexs(str(path)), od, ','.join(skip) if skip else '-'))
+        for i in indices:
+            lines.append('index %d' % i)
+            lines.append('view')
+    out = core.run_driver('drv_c05', lines)
+    k = 0
+    res = []
+    for path, skip, indices in requests:
+        o = out[k]; k += 1
+        views = {}
+        for i in indices:
+            a, b = out[k], out[k + 1]; k += 2
+            if o.startswith('ok'):
+                views[i] = parse_view(b) if a.startswith('ok') else ('exc', a.split()[1] if a.startswith('exc') else a)
+        if o.startswith('ok'):
+            res.append(('ok', views))
+        elif o.startswith('exc'):
+            res.append(('exc', o.split()[1]))
+        else:
+            raise RuntimeError('driver: %s' % o[:300])
+    return res
+
+
+def run_model_parallel(requests, nthreads=6):
+    from concurrent.futures import ThreadPoolExecutor
+    if not requests:
+        return []
+    # balance by file size
+    sized = sorted(range(len(requests)), key=lambda i: -os.path.getsize(requests[i][0]) * max(1, len(requests[i][2])))
+    buckets = [[] for _ in range(min(nthreads, len(requests)))]
+    loads = [0] * len(buckets)
+    for i in sized:
+        b = loads.index(min(loads))
+        buckets[b].append(i)
+        loads[b] += os.path.getsize(requests[i][0]) * max(1, len(requests[i][2]))
+    out = [None] * len(requests)
+    with ThreadPoolExecutor(max_workers=len(buckets)) as ex:
+        futs = [ex.submit(model_views, [requests[i] for i in b]) for b in buckets]
+        for b, f in zip(buckets, futs):
+            for i, r in zip(b, f.result()):
+                out[i] = r
+    return out
+
+
 def correspond(ctx, res, jobs, results):
-    """model vs implementation: filled in together with the Lean model"""
-    return
+    """facet listing_file: the whole-file model (Lean) against the real reader, every exposed table, cell for cell"""
+    f = res.facet('listing_file')
+    reqs, owners = [], []
+    for job, r in zip(jobs, results):
+        if isinstance(r, Timeout):
+            continue
+        if r.get('rejected'):
+            reqs.append((r['path'], [], []))
+            owners.append((job, r, 'rejected'))
+        elif r.get('dumps'):
+            reqs.append((r['path'], [], [i for i, _ in r['dumps']]))
+            owners.append((job, r, 'views'))
+    outs = run_model_parallel(reqs)
+    for (job, r, kind), (path, skip, indices), o in zip(owners, reqs, outs):
+        case = dict(file=job['rel'], variant=job['vspec'])
+        if kind == 'rejected':
+            f['cases'] += 1
+            res.count('model:rejected-variants-compared')
+            if not (o[0] == 'exc' and o[1] == 'Exception'):
+                f['disagreements'] += 1
+                res.disagreements.append(dict(facet='listing_file', case=case, model='open: %s' % (o[1] if o[0] == 'exc' else 'ok'), impl='open raises Exception: %s' % r['rejected']))
+            continue
+        if o[0] == 'exc':
+            f['cases'] += 1
+            f['disagreements'] += 1
+            res.disagreements.append(dict(facet='listing_file', case=case, model='open raises %s' % o[1], impl='opens'))
+            continue
+        for (i, dpath) in r['dumps']:
+            f['cases'] += 1
+            mv = o[1].get(i)
+            real = load_dump(dpath)
+            c2 = dict(case, index=i)
+            if isinstance(mv, tuple) and len(mv) == 2 and mv[0] == 'exc':
+                f['disagreements'] += 1
+                res.disagreements.append(dict(facet='listing_file', case=c2, model='index raises %s' % mv[1], impl='ok'))
+                continue
+            d = None
+            if mv[0] != real[0]: d = 'index %r != %r' % (mv[0], real[0])
+            elif bits(mv[1]) != bits(real[1]) and not (mv[1] != mv[1] and real[1] != real[1]): d = 'time %r != %r' % (mv[1], real[1])
+            elif mv[2] != real[2]: d = 'step %r != %r' % (mv[2], real[2])
+            elif sorted(mv[3]) != sorted(real[3]): d = 'tables %r != %r' % (sorted(mv[3]), sorted(real[3]))
+            else:
+                for name in sorted(real[3]):
+                    r1, c1, m1 = mv[3][name]
+                    r2, c2_, m2 = real[3][name]
+                    res.count('model:cells-compared', int(m2.size))
+                    if r1 != r2: d = 'table %s: row names differ (model %d rows, impl %d)' % (name, len(r1), len(r2)); break
+                    if c1 != c2_: d = 'table %s: column names differ: %r vs %r' % (name, c1, c2_); break
+                    if not bit_equal(m1, m2):
+                        import numpy as np
+                        bad = np.argwhere(~((m1 == m2) | (np.isnan(m1) & np.isnan(m2))))
+                        if len(bad) == 0:
+                            bad = np.argwhere(np.signbit(m1) != np.signbit(m2))
+                        rr, cc = (int(x) for x in bad[0])
+                        d = 'table %s: cell [%d][%s] model %r, impl %r (%d cells differ)' % (name, rr, c1[cc], float(m1[rr, cc]), float(m2[rr, cc]), len(bad))
+                        break
+            res.count('model:views-compared')
+            if d:
+                f['disagreements'] += 1
+                res.disagreements.append(dict(facet='listing_file', case=c2, model=d, impl='(see model)'))
 
 
 def search(ctx, seconds, res):
